@@ -1039,18 +1039,7 @@ func (w *c15World) applyRvgen(r *Rec, f []string) (string, string) {
 
 // ---- the panic-site inventory (translator part) ---------------------------------------------------------------
 
-var c15ReplaceRe = regexp.MustCompile(`github.com/teleport-network/teleport => (\S+)`)
-
-func c15RepoDir() string {
-	b, err := os.ReadFile("go.mod")
-	if err != nil {
-		return "/repo"
-	}
-	if m := c15ReplaceRe.FindSubmatch(b); m != nil {
-		return string(m[1])
-	}
-	return "/repo"
-}
+func c15RepoDir() string { return repoDir() }
 
 func c15PanicSites(t *testing.T, r *Rec) {
 	root := verifRoot()
